@@ -24,7 +24,10 @@ let pres_tag (r : pres) : string =
   | P_Ok (f, l, reps) ->
     Printf.sprintf "a:%s:%s:%s" (hex_of_z f) (hex_of_z l)
       (if reps = [] then "-" else String.concat "," (List.map (fun (h, s) -> hex_of_n h ^ "." ^ hex_of_n s) reps))
-  | P_Deser _ -> "rDeserialization"
+  | P_Deser e -> "rDeserialization:" ^ (match e with
+      | DE_ExpectedNonNull -> "ExpectedNonNull" | DE_ByteLengthMismatch -> "ByteLengthMismatch"
+      | DE_RawCqlBytesRead -> "RawCqlBytesRead" | DE_LengthDeser -> "LengthDeser"
+      | DE_OutOfFuel -> "OutOfFuel(model-artefact)" | _ -> "Other")
   | P_WrongTokenRange -> "rWrongTokenRange"
   | P_ShardNum -> "rShardNum"
 
